@@ -232,7 +232,7 @@ func C18(c *Ctx) {
 		"decided per module: section prefixes are distinct single constant bytes initialised by composite literals and never written; every store access in module code uses a key whose first segment is such a prefix (so sections cannot alias); " +
 		"each builder is injective (all segments fixed-width or length-prefixed, at most a trailing Raw); integers are big-endian (byte order = numeric order); iteration prefixes end on a segment boundary of the builders of their section; " +
 		"the stream-key parsers read exactly the offsets the builder writes and return (receiver, sender) in builder order; query callbacks re-prefix with the section they iterate. Covers all identifier/height/address values because the layout, not sampled values, is analysed."
-	r.Rules = []string{"A11.prefix-distinct", "A11.prefix-immutable", "A12.item-identity", "A11.iter-end-bound", "A11.section-resolved", "A11.injective", "A11.big-endian", "A11.iter-prefix", "A11.iter-confined", "A11.parser", "A11.reprefix", "A11.append-alias", "A11.listing-order", "A6.persistent-store"}
+	r.Rules = []string{"A11.prefix-distinct", "A11.prefix-immutable", "A12.item-identity", "A11.iter-end-bound", "A11.section-resolved", "A11.injective", "A11.big-endian", "A11.iter-prefix", "A11.iter-confined", "A11.parser", "A11.reprefix", "A11.append-alias", "A11.listing-order", "A6.persistent-store", "A12.decode-fresh"}
 	appendAlias(c)
 	r.Trusted = []string{"address.MustLengthPrefix emits one length byte + payload and panics above 255 bytes", "sdk.KVStorePrefixIterator / prefix.Store semantics", "binary.BigEndian.PutUint64"}
 	r.NotDecided = []string{"behaviour of the IAVL store itself"}
@@ -511,6 +511,8 @@ func C18(c *Ctx) {
 
 	// entities of different modules never alias: every keeper works on its own module's store key
 	persistentStores(c)
+	// what is read for one entity is its stored record alone: no decode into a variable that still holds the previous one
+	decodeFresh(c, ir.Modules...)
 	streamParsers(c, builders)
 	r.Floor("collectors of stored entities judged for the order of their list", listingOrder(c), 5)
 }
